@@ -54,6 +54,38 @@ type PropCfg struct {
 	Explanation string                 `json:"explanation"`
 	Outside     []string               `json:"outside_the_claim"`
 	Bounds      map[string]interface{} `json:"bounds,omitempty"`
+	Overrides   []Override             `json:"overrides,omitempty"`
+}
+
+// Override is a textual edit applied to a file read from /repo before loading (e.g. scaling one constant);
+// the rest of the file is the tree's. Recorded as a bound in the evidence.
+type Override struct {
+	File string `json:"file"`
+	Old  string `json:"old"`
+	New  string `json:"new"`
+}
+
+var activeOverrides []Override
+
+// overrideFiles returns virtual path -> modified content for the active overrides.
+func overrideFiles() (map[string][]byte, error) {
+	out := map[string][]byte{}
+	for _, o := range activeOverrides {
+		path := filepath.Join(repoDir, o.File)
+		b, ok := out[path]
+		if !ok {
+			var err error
+			b, err = os.ReadFile(path)
+			if err != nil {
+				return nil, err
+			}
+		}
+		if !strings.Contains(string(b), o.Old) {
+			return nil, fmt.Errorf("override: %q not found in %s (the source changed: update the override)", o.Old, o.File)
+		}
+		out[path] = []byte(strings.Replace(string(b), o.Old, o.New, 1))
+	}
+	return out, nil
 }
 
 // overlayFiles maps /verif/harness/<rel> -> /repo/<rel>
@@ -81,6 +113,13 @@ func loadProgram(patterns []string) (*ssa.Program, []*packages.Package, error) {
 		if err != nil {
 			return nil, nil, err
 		}
+		ov[virt] = b
+	}
+	ovr, err := overrideFiles()
+	if err != nil {
+		return nil, nil, err
+	}
+	for virt, b := range ovr {
 		ov[virt] = b
 	}
 	env := append(os.Environ(), "GOFLAGS=-mod=mod", "GOPROXY=off")
@@ -175,6 +214,7 @@ func cmdRun(args []string) int {
 		fmt.Fprintln(os.Stderr, "props json:", err)
 		return 3
 	}
+	activeOverrides = cfg.Overrides
 	pkgSet := map[string]bool{}
 	for _, h := range cfg.Harnesses {
 		pkgSet[h.Pkg] = true
@@ -276,6 +316,7 @@ func cmdTracePath(args []string) int {
 		fmt.Println(err)
 		return 3
 	}
+	activeOverrides = cfg.Overrides
 	var cex CounterEx
 	b, _ = os.ReadFile(*file)
 	if err := json.Unmarshal(b, &cex); err != nil {
